@@ -200,12 +200,9 @@ impl ReceiveChannelUnreliable {
         let mut lost_messages: Vec<u64> = Vec::new();
         for (&message_id, last_received) in self.slices_last_received.iter() {
             const DISCARD_AFTER: Duration = Duration::from_secs(3);
+            // All entries are checked: slices can arrive out of order, so the messages are not sorted by the time of their last slice
             if current_time - *last_received >= DISCARD_AFTER {
                 lost_messages.push(message_id);
-            } else {
-                // If the current message is not discard, the next ones will not be discarded
-                // since all the next message were sent after this one.
-                break;
             }
         }
 
